@@ -78,6 +78,7 @@ class ListModel:
         self.ranges = []      # (lo term, hi term, binder, value)
         self.length = None
         self.default = None
+        self.int_buffer = None
         self.build(unwrap_array(t), n)
 
     def build(self, t, n):
@@ -131,6 +132,14 @@ class ListModel:
             if lst[0] == 'list' and len(lst[1]) == 1:
                 self.length, self.default = cnt, lst[1][0]
                 return
+        if t[0] == 'call' and show(t[1]) in ('np.full', 'numpy.full') and len(t[2]) == 2:
+            self.length, self.default = t[2][0], t[2][1]
+            dt = dict(t[3]).get('dtype') if len(t) > 3 else None
+            if dt is None and t[2][1][0] == 'const' and isinstance(t[2][1][1], int) and not isinstance(t[2][1][1], bool):
+                self.int_buffer = show(t)          # np.full(n, 1) is an INTEGER array: floats stored into it are truncated
+            elif dt is not None and show(dt) in ('int', 'np.int64', 'np.int32', 'np.int_'):
+                self.int_buffer = show(t)
+            return
         if t[0] == 'call' and show(t[1]) in ('np.empty', 'np.zeros', 'np.ones', 'numpy.empty', 'numpy.zeros', 'numpy.ones') and len(t[2]) >= 1:
             self.length = t[2][0]
             self.default = {'empty': None, 'zeros': C(0.0), 'ones': C(1.0)}[show(t[1]).split('.')[-1]]
@@ -269,6 +278,10 @@ def check_path(rep, f, t, names, n_t, s_t, cond_txt, subst_s, n_is_one, unknown_
         # special case for a single agent: the list must be [1]
         ok = lm.points.get(0) in (C(1), C(1.0)) and (not lm.ranges or True)
         rep.check(ok, 'C17.R1', w, 'a single agent gets the un-normalised weight 1 [%s]' % cond_txt, got=show(L)[:120], construct='single-agent list')
+        return
+    if lm.int_buffer and (lm.ranges or lm.points):
+        rep.fail('C17.R1', w, 'the weights are stored as computed (real numbers) [%s]' % cond_txt, got='%s is an integer array: every interpolated weight written into it is truncated to an integer' % lm.int_buffer,
+                 want='a float buffer (np.full(n, 1.0), [0.0] * n)', construct='integer weight buffer')
         return
     rep.check(lm.length == n_t, 'C17.R1', w, 'the list has one weight per agent [%s]' % cond_txt, got=show(lm.length) if lm.length else None, want='n', construct='list length %s' % (show(lm.length) if lm.length else None))
     if len(lm.ranges) != 1:
